@@ -69,6 +69,7 @@ class ProgGen:
             need_register=True,
             p_sub_count=0.5,
             p_qualified_twin=0.0,
+            p_reg_macro=0.15,
             p_negative_step=0.15,
             macro_sub=False,
             p_twin=0.0,
@@ -573,6 +574,7 @@ class ExecGen(ProgGen):
         self.used.update(["prepare_all", "measure_all"])
         self.macro_info = {}  # name -> (nq params, n float params)
         self.index_macros = {}  # name -> (register-like name, n float params)
+        self.reg_macros = {}  # name -> number of elements of its register parameter it touches
         self.section_macros = {}  # name -> number of parameters (first one is a qubit)
         self.shadowed_lets = set()  # let names that an earlier macro uses as a parameter name
 
@@ -596,12 +598,31 @@ class ExecGen(ProgGen):
         self.macros[name] = ["idx"] + (["num"] if has_f else [])
         return ("macro", name) + params + (("sequential_block",) + tuple(body),)
 
+    def gen_reg_macro(self):
+        """Macro with a REGISTER parameter indexed by literals: `macro pair r { X r[0] ; H r[1] }`; call sites pass the
+        register or aliases of it (each call site then reaches other qubits through the same statements)."""
+        rng = self.rng
+        name = self.fresh(MACRO_NAMES, "mc")
+        pool = [n for n in PARAM_NAMES + ["r", "w"] if n not in self.elems]
+        rname = rng.choice(pool)
+        need = rng.choice([1, 1, 2]) if min(len(e) for e in self.elems.values()) >= 1 else 1
+        body = []
+        for i in range(need):
+            body.append(("gate", rng.choice(["X", "H", "S", "T2", "I_X"]), ("array_item", rname, i)))
+        if need == 2 and rng.random() < 0.5:
+            body.append(("gate", "CX", ("array_item", rname, 0), ("array_item", rname, 1)))
+        self.reg_macros[name] = need
+        self.macros[name] = ["reg"]
+        return ("macro", name, rname, ("sequential_block",) + tuple(body))
+
     def gen_exec_macro(self):
         """Macro whose body acts only on its qubit parameters (so that calls in parallel
         blocks are disjoint when their arguments are) plus numeric parameters."""
         rng = self.rng
         if self.elems and rng.random() < 0.3:
             return self.gen_index_macro()
+        if self.elems and rng.random() < self.p["p_reg_macro"]:
+            return self.gen_reg_macro()
         name = self.fresh(MACRO_NAMES, "mc")
         nqp = rng.choice([1, 1, 2, 2, 3])
         nqp = min(nqp, self.regsize)
@@ -733,6 +754,15 @@ class ExecGen(ProgGen):
                 i, ph = rng.choice(cands)
                 args = [self.ioi(i, self.p["p_let_index"])] + [self.angle_native() for _ in range(mf)]
                 return ("gate", m) + tuple(args), {ph}
+        if self.reg_macros and rng.random() < 0.25:
+            m = rng.choice(list(self.reg_macros))
+            need = self.reg_macros[m]
+            # any register / alias whose first `need` elements are available here
+            cands = [r for r, els in self.elems.items() if len(els) >= need and all(ph in avail for ph in els[:need])
+                     and len(set(els[:need])) == need]
+            if cands:
+                r = rng.choice(cands)
+                return ("gate", m, r), set(self.elems[r][:need])
         if self.macro_info and rng.random() < 0.3:
             cands = [m for m, (mq, mf) in self.macro_info.items() if mq <= len(avail)]
             if cands:
